@@ -65,5 +65,23 @@ def matrix_search(ctx: Ctx):
                               {"kind": "inverse-circuit", "text": text})
 
 
+    # runs of directly consecutive parametric instructions in which the same rotation occurs twice on one qubit with a rotation that does
+    # not commute with it in between (and the same across two qubits, with fused and repeated targets): the inverse reverses the ORDER
+    for text in ["R_X(0.3) 0\nR_Z(0.4) 0\nR_X(0.3) 0", "R_Z(0.2) 0\nU3(0.1, 0.2, 0.3) 0\nR_Z(0.2) 0", "R_Y(0.7) 1\nR_X(-0.2) 1\nR_Y(0.7) 1\nR_X(-0.2) 1",
+                 "U3(0.3, 0.1, -0.4) 0\nR_Z(0.25) 0\nU3(0.3, 0.1, -0.4) 0", "R_X(0.3) 0 1\nR_Z(0.4) 1\nR_X(0.3) 1 0\nR_Y(0.1) 0\nR_X(0.3) 0",
+                 "H 0\nR_Z(0.3) 0\nR_X(0.3) 0\nR_Z(0.3) 0\nCX 0 1\nR_X(0.5) 1\nR_Y(0.5) 1\nR_X(0.5) 1", "T 0\nR_X(0.25) 0\nT 0\nR_X(0.25) 0\nT_DAG 0"]:
+        try:
+            c = tsim.Circuit(text)
+            M = np.asarray((c + c.inverse()).to_matrix())
+        except Exception as e:
+            ctx.violation(f"inverse-raises:{text}", f"inverse()/to_matrix raised {e!r}", {"kind": "inverse-circuit", "text": text})
+            continue
+        ctx.count(("inv-run", text), bucket="inverse-of-parametric-runs")
+        ph = M[0, 0]
+        if abs(abs(ph) - 1) > 1e-5 or not np.allclose(M, ph * np.eye(M.shape[0]), atol=1e-5):
+            ctx.violation("inverse-circuit:" + text.replace("\n", ";")[:60], "(c + c.inverse()).to_matrix() is not proportional to the identity "
+                          f"(inverse: {str(c.inverse())!r})", {"kind": "inverse-circuit", "text": text})
+
+
 def replay(ctx: Ctx, obj) -> int:
     return c16_text.replay_text(ctx, obj)
